@@ -387,7 +387,7 @@ def dispatch_total(P, R, rid, *_):
         covered = set()
         for n in own_nodes(u.node):
             if isinstance(n, ast.Compare) and len(n.ops) == 1 and isinstance(n.ops[0], (ast.Eq, ast.In, ast.Is)):
-                cs = ev.const_set(n.comparators[0])
+                cs = ev.const_set(n.comparators[0]) or (not isinstance(n.ops[0], ast.In) and ev.const_set(n.left))
                 if cs:
                     covered |= cs
             if isinstance(n, ast.Dict):
